@@ -58,8 +58,13 @@ fn wrap_event(b: &mut Builder, fk: &FamilyKeys, node: usize, bk: Bk, edge: bool,
             (blob, WrapKind::Pw, kk, with)
         }
         _ => {
-            b.push(Step::Wrap { blob, node, wk: WrapKind::Pke, key: fk.local, with: SecretRef::Key { slot: fk.pke_public }, params: PwParams::Default, rng });
-            (blob, WrapKind::Pke, Kind::Local, SecretRef::Key { slot: fk.pke_secret })
+            // the recipient's public key as generated, or (v3) imported from compressed / uncompressed SEC1
+            let (to, sk) = match fk.known {
+                Some(k) if b.rng.bool() => (if b.rng.chance(2, 3) { k.pke_public_uncompressed } else { k.pke_public }, k.pke_secret),
+                _ => (fk.pke_public, fk.pke_secret),
+            };
+            b.push(Step::Wrap { blob, node, wk: WrapKind::Pke, key: fk.local, with: SecretRef::Key { slot: to }, params: PwParams::Default, rng });
+            (blob, WrapKind::Pke, Kind::Local, SecretRef::Key { slot: sk })
         }
     }
 }
@@ -98,7 +103,11 @@ impl Scenario for C05 {
         let mut fams = Vec::new();
         for f in 1..=4u8 {
             if nodes.iter().any(|n| n.family() == f) {
-                fams.push(b.family_keys(f, true).unwrap());
+                let mut fk = b.family_keys(f, true).unwrap();
+                if f == 3 {
+                    fk.known = b.p384_known();
+                }
+                fams.push(fk);
             }
         }
         let n = 3 + b.rng.usize_below(if thorough { 14 } else { 8 });
@@ -334,6 +343,31 @@ fn enumerate6(seed: u64, run: u64, tier: Tier, slices: u64) -> Plan {
             }
         }
     }
+    // related recipient keys (k3.seal): ECDH on P-384 uses the x-coordinate only, so the negated
+    // scalar n - d derives the same shared secret; only the recipient key bound into the key
+    // derivation tells the two apart
+    if wk == WrapKind::Pke && f == 3 {
+        if let Some(k) = b.p384_known() {
+            use num_bigint_dig::BigUint;
+            let n = crate::curves::p384_n();
+            let neg = (&n - BigUint::from_bytes_be(&k.pke_scalar)).to_bytes_be();
+            let mut neg48 = vec![0u8; 48 - neg.len()];
+            neg48.extend(neg);
+            let neg_slot = b.key_slot();
+            b.push(Step::KeyFromRaw { slot: neg_slot, family: 3, kind: Kind::PkeSecret, bytes: Bytes::hex(&neg48) });
+            for to in [k.pke_public, k.pke_public_uncompressed] {
+                for &writer in &readers {
+                    let blob4 = b.blob_slot();
+                    let rng = b.healthy_rng();
+                    b.push(Step::Wrap { blob: blob4, node: writer, wk, key, with: SecretRef::Key { slot: to }, params: PwParams::Default, rng });
+                    for &r in &readers {
+                        b.push(Step::Unwrap { blob: blob4, node: r, with: SecretRef::Key { slot: k.pke_secret }, faults: vec![], as_kind: None });
+                        b.push(Step::Unwrap { blob: blob4, node: r, with: SecretRef::Key { slot: neg_slot }, faults: vec![], as_kind: None });
+                    }
+                }
+            }
+        }
+    }
     // blobs written with degenerate or unusual cost parameters (whatever a writer accepts): still bound
     // to the password
     if wk == WrapKind::Pw {
@@ -403,7 +437,11 @@ fn explore6(seed: u64, run: u64, tier: Tier) -> Plan {
     let mut fams = Vec::new();
     for f in 1..=4u8 {
         if nodes.iter().any(|n| n.family() == f) {
-            fams.push(b.family_keys(f, false).unwrap());
+            let mut fk = b.family_keys(f, false).unwrap();
+            if f == 3 {
+                fk.known = b.p384_known();
+            }
+            fams.push(fk);
         }
     }
     let mut made: Vec<(usize, u8, WrapKind, Kind, SecretRef)> = Vec::new();
